@@ -86,6 +86,9 @@ func vfC05GenWorld(r *vfRand) *vfC05World {
 		d := vfC05Doc{Name: r.Pick(vfC05FileNames), Lang: r.Pick(vfC05LangPool)}
 		if nr > 0 {
 			d.Repo = r.Intn(nr)
+			if i < nr && r.Chance(85) { // usually every repository has a document
+				d.Repo = i
+			}
 		}
 		nw := r.Intn(4)
 		var ws []string
@@ -130,14 +133,30 @@ func vfC05GenBitmap(r *vfRand) *roaring.Bitmap {
 	return bm
 }
 
+// FileName/Content flags: neither (35%), both (25%), file only (20%), content only (20%)
+func vfC05FileContent(r *vfRand) (bool, bool) {
+	switch k := r.Intn(100); {
+	case k < 35:
+		return false, false
+	case k < 60:
+		return true, true
+	case k < 80:
+		return true, false
+	default:
+		return false, true
+	}
+}
+
 func vfC05GenAtom(r *vfRand) query.Q {
 	switch r.Intn(17) {
 	case 0:
 		return &query.Const{Value: r.Bool()}
 	case 1, 2:
-		return &query.Substring{Pattern: r.Pick(vfC05Patterns), CaseSensitive: r.Bool(), FileName: r.Chance(35), Content: r.Chance(35)}
+		fn, ct := vfC05FileContent(r)
+		return &query.Substring{Pattern: r.Pick(vfC05Patterns), CaseSensitive: r.Bool(), FileName: fn, Content: ct}
 	case 3, 4:
-		return &query.Regexp{Regexp: vfC05MustSyntax(r.Pick(vfC05Regexps)), CaseSensitive: r.Bool(), FileName: r.Chance(35), Content: r.Chance(35)}
+		fn, ct := vfC05FileContent(r)
+		return &query.Regexp{Regexp: vfC05MustSyntax(r.Pick(vfC05Regexps)), CaseSensitive: r.Bool(), FileName: fn, Content: ct}
 	case 5:
 		if r.Bool() {
 			return &query.Symbol{Expr: &query.Substring{Pattern: r.Pick(vfC05Patterns)}}
@@ -151,7 +170,7 @@ func vfC05GenAtom(r *vfRand) query.Q {
 		return &query.RepoRegexp{Regexp: regexp.MustCompile(r.Pick(vfC05RepoRegexps))}
 	case 9:
 		br := &query.BranchesRepos{}
-		n := r.Intn(3)
+		n := r.Intn(4)
 		for i := 0; i < n; i++ {
 			br.List = append(br.List, query.BranchRepos{Branch: r.Pick([]string{"HEAD", "main", "dev", "m", ""}), Repos: vfC05GenBitmap(r)})
 		}
@@ -189,6 +208,17 @@ func vfC05GenAtom(r *vfRand) query.Q {
 		return rc
 	default:
 		return &query.Const{Value: r.Bool()}
+	}
+}
+
+// the atoms indexData.simplify decides per shard (drawn from vfC05GenAtom by rejection)
+func vfC05GenShardAtom(r *vfRand) query.Q {
+	for {
+		a := vfC05GenAtom(r)
+		switch a.(type) {
+		case *query.Repo, *query.RepoRegexp, *query.BranchesRepos, *query.RepoSet, query.RawConfig, *query.RepoIDs, *query.Language, *query.Meta:
+			return a
+		}
 	}
 }
 
@@ -735,7 +765,7 @@ func TestVerifC05(t *testing.T) {
 	n := vfN(300)
 	var w *vfC05World
 	for i := 0; i < n; i++ {
-		if w == nil || i%3 == 0 {
+		if w == nil || i%3 != 1 { // a new world for 2 of 3 trees
 			w = vfC05GenWorld(r)
 		}
 		depth := 1 + r.Intn(4)
@@ -754,6 +784,17 @@ func TestVerifC05(t *testing.T) {
 				}
 			}
 		}
+		if i%5 == 4 { // focused stream: one or two per-shard atoms in a small context
+			q = vfC05GenShardAtom(r)
+			switch r.Intn(4) {
+			case 0:
+				q = &query.Not{Child: q}
+			case 1:
+				q = &query.And{Children: []query.Q{vfC05GenAtom(r), q}}
+			case 2:
+				q = &query.Or{Children: []query.Q{q, vfC05GenShardAtom(r)}}
+			}
+		}
 		qCoq := vfC05Coq(q)
 		size := vfC05Count(q)
 		if i%4 == 0 {
@@ -766,7 +807,7 @@ func TestVerifC05(t *testing.T) {
 			outCoq := vfC05Coq(out)
 			if again := vfC05Coq(q); again != qCoq {
 				vfOracleFail(rw.name+":mutates-input", rw.name+" modified the tree it was given",
-					map[string]any{"rewrite": rw.name, "query": q.String(), "before": qCoq, "after": again})
+					map[string]any{"rewrite": rw.name, "query": q.String(), "before": qCoq, "after": again, "seed": vfSeed(), "n": n, "iteration": i})
 			}
 			if bad {
 				// shrink the tree (same world), then classify by shape
@@ -785,7 +826,8 @@ func TestVerifC05(t *testing.T) {
 					rw.name+" changes the set of selected documents: "+small.String()+" => "+o2.String(),
 					map[string]any{"rewrite": rw.name, "query": small.String(), "query_coq": vfC05Coq(small), "rewritten": o2.String(),
 						"selected_before": b2, "selected_after": a2, "world": vfC05WorldJSON(w),
-						"original_query": q.String(), "original_selected_before": before, "original_selected_after": after})
+						"original_query": q.String(), "original_selected_before": before, "original_selected_after": after,
+						"seed": vfSeed(), "n": n, "iteration": i})
 			}
 			var coq string
 			switch rw.name {
